@@ -17,7 +17,7 @@ fi
 VERIF_REPO="$WT" /verif/bin/nricheck $ID --tier $TIER "$@" > /var/tmp/seedtest.$$.log 2>&1
 rc=$?
 echo "== $P on $ID: exit=$rc"
-grep -m3 '^finding' /var/tmp/seedtest.$$.log | cut -c1-300
-tail -2 /var/tmp/seedtest.$$.log | grep -v '^VIOLATION' | cut -c1-300
+grep -a -m3 "^finding" /var/tmp/seedtest.$$.log | cut -c1-300
+tail -2 /var/tmp/seedtest.$$.log | grep -a -v '^VIOLATION' | cut -c1-300
 rm -f /var/tmp/seedtest.$$.log
 exit $rc
